@@ -488,6 +488,24 @@ theorem round_table (r : Rounding) : (npRoundName r, npRoundName r) ∈ Gen.roun
       first | exact ⟨.around, rfl⟩ | exact ⟨.floor, rfl⟩ | exact ⟨.ceil, rfl⟩ | exact ⟨.fix, rfl⟩ | exact ⟨.trunc, rfl⟩
 
 
+/-- the python function that rounds an exact rational the way each rule of the model does: `round` (nearest, ties to the even
+integer — `Fraction.__round__`), `math.floor`, `math.ceil`, `math.trunc` (toward zero, which is what `fix` and `trunc` both mean). -/
+def pyExactRoundName : Rounding → String
+  | .trunc => "math.trunc" | .fix => "math.trunc" | .floor => "math.floor" | .ceil => "math.ceil" | .around => "round"
+
+/-- the exact-rational branch of `_round` (results that lose fraction bits, D41) applies to every rounding rule the python function that
+computes the model's `roundR` for it, and the table has no other entry. -/
+theorem round_rational_table (r : Rounding) : (npRoundName r, pyExactRoundName r) ∈ Gen.roundRationalTable ∧
+    ∀ p ∈ Gen.roundRationalTable, ∃ r' : Rounding, p = (npRoundName r', pyExactRoundName r') := by
+  unfold Gen.roundRationalTable
+  constructor
+  · cases r <;> simp [npRoundName, pyExactRoundName]
+  · intro p hp
+    simp only [List.mem_cons, List.mem_nil_iff, or_false] at hp
+    rcases hp with h | h | h | h | h <;> subst h <;>
+      first | exact ⟨.around, rfl⟩ | exact ⟨.floor, rfl⟩ | exact ⟨.ceil, rfl⟩ | exact ⟨.fix, rfl⟩ | exact ⟨.trunc, rfl⟩
+
+
 /-! ## The property theorems, restated about the generated rules
 
 `_function_over_one_var` / `_function_over_two_vars` build the result with `Fxp(val, signed=, n_int=, n_frac=)`
